@@ -88,6 +88,9 @@ def enumerate_cases(tier, shard, nshards, seed):
             yield {'kind': 'history', 'src': case['src'], 'tsel': s1['tsel'], 'text': s1['text'], 'asel': s2['tsel'], 'how': how, 'enumerated': True}
 
 
+DANGLING_CONT = re.compile(r'\\\n[ \t]*(\n|$)')
+
+
 def parse_or_skip(src):
     try:
         return ast.parse(src)
@@ -196,6 +199,12 @@ def execute(case, ctx):
 
         for tsel, start, stop, mode in case['sels']:
             cur = root.src
+
+            if DANGLING_CONT.search(cur):
+                ctx.count('state_with_dangling_continuation(C01-dangling-continuation family, sequence stops)')  # a backslash continuation onto an empty line joins whatever is put after it
+
+                return
+
             cur_S = c07.norm_dump(parse_or_skip(cur))
             nodes = em.node_targets(root.a)
             conts = em.container_targets(root.a)
